@@ -30,6 +30,8 @@ func reasonedDrop(call *ssa.Call) (string, bool) {
 		return "strings.Builder writes cannot fail", true
 	case pkg == "bytes" && recv == "Buffer" && strings.HasPrefix(f.Name(), "Write"):
 		return "bytes.Buffer writes cannot fail (they panic on out-of-memory)", true
+	case (pkg == "bytes" && (recv == "Buffer" || recv == "Reader") || pkg == "strings" && recv == "Reader") && strings.HasPrefix(f.Name(), "Read"):
+		return "reading from memory: the only error is io.EOF, which is the end of the data and not a failure", true
 	case pkg == "fmt" && strings.HasPrefix(f.Name(), "Fprint") && len(call.Call.Args) > 0 && isMemoryWriter(call.Call.Args[0]):
 		return "formatted write into a strings.Builder / bytes.Buffer cannot fail", true
 	case pkg == "fmt" && (strings.HasPrefix(f.Name(), "Print")):
@@ -461,7 +463,55 @@ func (c *Ctx) RuleErr() (drop, handle *Result) {
 			}
 			tests = len(all) + len(sentinelTests)
 			okTests := len(sentinelTests)
+			// edges on which the error is known to be nil or the sentinel: a test that can only be
+			// reached over such edges classifies a value that is not a failure of another kind
+			harmless := map[[2]*ssa.BasicBlock]bool{}
+			for _, t := range all {
+				nilSide := 1
+				if t.tmn != t.br.neg {
+					nilSide = 0
+				}
+				blk := t.br.iff.Block()
+				harmless[[2]*ssa.BasicBlock{blk, blk.Succs[nilSide]}] = true
+			}
 			for _, stt := range sentinelTests {
+				side := 0
+				if stt.neg {
+					side = 1
+				}
+				blk := stt.iff.Block()
+				harmless[[2]*ssa.BasicBlock{blk, blk.Succs[side]}] = true
+			}
+			reachesWithOtherFailure := func(target *ssa.BasicBlock) bool {
+				start := s.call.Block()
+				if start == target {
+					return true
+				}
+				seen := map[*ssa.BasicBlock]bool{start: true}
+				stack := []*ssa.BasicBlock{start}
+				for len(stack) > 0 {
+					x := stack[len(stack)-1]
+					stack = stack[:len(stack)-1]
+					if c.Loud().BlockDies(x) {
+						continue
+					}
+					for _, sc := range x.Succs {
+						if harmless[[2]*ssa.BasicBlock{x, sc}] || seen[sc] {
+							continue
+						}
+						if sc == target {
+							return true
+						}
+						seen[sc] = true
+						stack = append(stack, sc)
+					}
+				}
+				return false
+			}
+			for _, stt := range sentinelTests {
+				if !reachesWithOtherFailure(stt.iff.Block()) {
+					continue // only reached with nil or with the sentinel: nothing else to classify
+				}
 				// other side: index 1 when cond true means "is the sentinel"
 				side := 1
 				if stt.neg {
